@@ -4,6 +4,7 @@ NOTES = ('Contract-based deductive verification of the real code: functions are 
 ENGINES = [
     {'name': 'E1 verus-extract', 'path': '/verif/check, /verif/lib/{rsitems,weave}.py, /verif/units/*.vu, /verif/prelude/*.rs',
      'serves_properties': ['C01', 'C02', 'C04', 'C05', 'C06', 'C08', 'C13', 'C15', 'C19'], 'kind_free_text': 'mechanical extraction of /repo Rust items into single-file Verus units with side-car contracts; Z3 back end'},
+    {'name': 'E2 mast-lemmas', 'path': '/verif/tools/mastdump, /verif/lib/e2gen.py, /verif/masm_specs/*.py, /verif/units/masm_*.vu', 'serves_properties': ['C09', 'C16'], 'kind_free_text': 'masm sources assembled by /repo\'s assembler, MAST dumped and turned into Verus lemmas over the hub operation semantics'},
     {'name': 'E3 kani', 'path': '/verif/kani/*', 'serves_properties': [], 'kind_free_text': 'Kani/CBMC harness crates with path deps on /repo crates; complete for finite domains, otherwise labelled bounded'},
 ]
 PENDING = 'not yet claimed: machinery for this property is still being built (see DESIGN.md §10 build order)'
@@ -76,5 +77,19 @@ META = {
         'design_ref': '§7 C01',
         'level_text': 'Glue obligations only: each standard preset (96/128-bit, regular/recursive) carries a hash function and options that verify() accepts for that hash function; the statement the prover commits to is (trace program info, given inputs, given outputs), the same shape verify() rebuilds.',
         'level_note': 'Protocol completeness (winterfell prover succeeds, verifier accepts, security level) is assumed, not proved; prove() body out of reach; honest-trace satisfaction is property C03.',
+    },
+    'C16': {
+        'engine': 'E2 mast-lemmas',
+        'technique': 'Verus lemmas generated over the MAST that /repo\'s assembler builds from stdlib/asm/math/u64.masm, composing the hub operation semantics; per-step normal-form lemmas for long procedures',
+        'design_ref': '§5, §7 C16',
+        'level_text': 'Deductive proof for all 32-bit limbs and every stack tail: overflowing/wrapping add, sub, mul, lt/gt/lte/gte/eq/neq/eqz, min/max, and/or/xor, div/mod/divmod compute exactly the documented integer functions, leave the rest of the stack untouched (zero fill at depth 16 included); the dividing procedures never complete on a zero divisor.',
+        'level_note': 'Trusted: hub operation semantics (proved for the processor in C05), mastdump/generator, P prime. Not decided: shl/shr/rotl/rotr/clz/ctz/clo/cto and u256.',
+    },
+    'C09': {
+        'engine': 'E2 mast-lemmas',
+        'technique': 'Verus lemmas over real MAST with the advice stack universally quantified; Verus contracts on op_advpop/op_advpopw',
+        'design_ref': '§7 C09',
+        'level_text': 'Deductive proof for every advice content a host may supply: stdlib u64 div/mod/divmod either fail or produce the true quotient/remainder; advice pops push exactly the host-returned value.',
+        'level_note': 'Partial: clz/ctz/clo/cto, ilog2, ext2inv/ext2div and the Merkle instructions are not decided; honest-host completeness not decided.',
     },
 }
